@@ -17,13 +17,6 @@ Proof.
   rewrite app_length. destruct c; [congruence|]. cbn [List.length]. lia.
 Qed.
 
-Lemma reps_rot : forall x c n, reps (x :: c) (S n) = x :: reps (c ++ [x]) n ++ c.
-Proof.
-  intros x c n. unfold reps. induction n as [|n IH]; cbn [repeat concat] in *.
-  - rewrite app_nil_r. reflexivity.
-  - rewrite IH. cbn [app]. f_equal. rewrite <- !app_assoc. reflexivity.
-Qed.
-
 Lemma firstn_app_le : forall (a b : list Z) n, (n <= List.length a)%nat -> firstn n (a ++ b) = firstn n a.
 Proof.
   intros a b n H. rewrite firstn_app. replace (n - List.length a)%nat with O by lia.
@@ -36,10 +29,7 @@ Proof.
   induction n as [|n IH]; intros p c Hc; [eexists; reflexivity|].
   cbn [ltake]. unfold lnext. cbn [pre cyc dv]. destruct p as [|y p].
   - destruct c as [|x c]; [congruence|].
-    assert (Hc' : c ++ [x] <> []) by (destruct c; discriminate).
-    destruct (IH [] (c ++ [x]) Hc') as [r Hr]. rewrite Hr. exists r.
-    cbn [app]. rewrite reps_rot. cbn [firstn]. rewrite firstn_app_le by (apply reps_length; exact Hc').
-    reflexivity.
+    destruct (IH c (x :: c) Hc) as [r Hr]. rewrite Hr. exists r. reflexivity.
   - destruct (IH p c Hc) as [r Hr]. rewrite Hr. exists r.
     assert (E : firstn n (p ++ reps c (S n)) = firstn n (p ++ reps c n)).
     { change (reps c (S n)) with (c ++ reps c n). rewrite reps_comm, app_assoc.
